@@ -65,6 +65,12 @@ func checkC09(c *vk.Ctx) {
 	p.W = map[string]int{"connect": 6, "subscribe": 4, "publish": 10, "disconnect": 4, "hold": 4, "ping": 1}
 	p.W["ackone"] = 5
 	p.W["failwrite"] = 3
+	// housekeeping sweeps of the in-flight store run between the steps (small virtual time steps, far from the session
+	// expiry of 300 s), in a third of the histories with the server's maximum message expiry switched off: a record of an
+	// exchange in progress (PUBREL after PUBREC) is not a message and must survive them
+	p.W["tick"] = 3
+	p.TickDelta = []int64{7, 13}
+	p.MaxMsgExp = []int64{0, 0, -1}
 	h := &histRun{Prop: "C09", Profile: p, N: c.N(400, 10000), Label: 9, Nontrivial: []string{"sessions_resumed"}}
 	h.run(c)
 	// probe for the recorded finding: a message released from the flow-control queue is not redelivered
